@@ -466,6 +466,11 @@ func evalConstructorDeclareStmt(vm *r.VM, node *syntax.FunctionDeclareStmt) erro
 	if currentModule := vm.GetCurrentModule(); module == nil || currentModule == nil || module.GetID() != currentModule.GetID() || !moduleDefinesClass(currentModule, cmodel) {
 		return zerr.InvalidClassType(className.GetLiteral())
 	}
+	// ... and to the block that defines it: a constructor written in a method body, branch or
+	// loop body for a type of an enclosing block would outlive that block
+	if !vm.DeclaredInCurrentBlock(className) {
+		return zerr.InvalidClassType(className.GetLiteral())
+	}
 
 	//// there are some different Factors from normal method function:
 	// 1. no outerScope (clousure scope)
